@@ -17,7 +17,9 @@ def relevant(o, prop, hprops):
     if o['class'] in ('unwinding', 'no-body'):
         return False
     if o['tags']:
-        return prop in o['tags']
+        # a tagged obligation belongs to the properties it names, and to every property its harness is declared to serve (vx/units.py ALSO_SERVES and the
+        # harness's own list): a function's contract is evidence for each property that rests on that function
+        return prop in o['tags'] or (prop in hprops and o['class'] not in ('safety', 'assigns'))
     if o['class'] == 'safety' or o['class'] == 'assigns':
         return prop == 'C05'
     # untagged functional obligation (contract clause without tag, loop invariants, decreases):
@@ -356,6 +358,27 @@ def main():
                 broken.append('replay sweep of unit %s could not run: %s' % (un, out[-300:]))
                 print('CHECK-BROKEN property=%s replay sweep of unit %s could not run' % (prop, un))
                 exit_code = exit_code or 2
+    # thorough tier only: vacuity guard by location coverage (vx/cover.py) - a function under contract in which cbmc cannot reach two or more source lines
+    # under the harness's preconditions holds its obligations vacuously there; that is a defect of the check (contradictory or too narrow precondition),
+    # reported as CHECK-BROKEN.  Harnesses whose last solver time exceeds 120 s are skipped (stated in the evidence).
+    vacuity = []
+    if tier == 'thorough':
+        import cover
+        cs = cover.costs()
+        cj = [(mod.NAME, h) for (mod, h, ctext, info), res in results if res.get('status') == 'ok' and h.dfcc and h.enforce and cs.get('%s/%s' % (mod.NAME, h.name), 1) <= 120
+              and not any(v[1].name == h.name and v[0].NAME == mod.NAME for v in violations)]
+        with ThreadPoolExecutor(min(12, a.j)) as ex:
+            couts = list(ex.map(lambda j: cover.unreached(*j), cj))
+        skipped = len(results) - len(cj)
+        for (un, h), (dead, msg) in zip(cj, couts):
+            if dead is None:
+                vacuity.append({'unit': un, 'harness': h.name, 'result': 'not run: ' + msg})
+                continue
+            n = sum(len(l) for l in dead.values())
+            vacuity.append({'unit': un, 'harness': h.name, 'unreached_lines': n})
+            if n > 1:
+                b = '%s/%s: %d source lines of %s are unreachable under the preconditions (%s): obligations there hold vacuously' % (un, h.name, n, h.enforce, '; '.join('%s:%s' % (f, ','.join(map(str, l[:12]))) for f, l in dead.items()))
+                broken.append(b); print('CHECK-BROKEN property=%s %s' % (prop, b)); exit_code = exit_code or 2
     tb = trusted_base(unit_rows)
     ev = {
         'property_id': prop, 'tier': tier, 'seed': seed, 'level': 'proof',
@@ -368,6 +391,7 @@ def main():
             'bounded_obligations_not_counted_as_proved': {'total': bounded_obl, 'passed': bounded_ok},
             'site_facts': site_facts,
             'replay_sweep_sampled_not_proof': sweeps,
+            'vacuity_guard_location_coverage': {'checked': len([v for v in vacuity if 'unreached_lines' in v]), 'with_unreached_code': [v for v in vacuity if v.get('unreached_lines', 0) > 1], 'not_run': [v for v in vacuity if 'result' in v]},
             'solver_seconds_total': round(solver_s, 1),
             'known_findings_matched': sorted(seen_k),
             'violations': vio_rows,
